@@ -87,8 +87,12 @@ def count_programs(path):
 
 
 # --------------------------------------------------------------------------- model checking
+COUNTS = [255, 256, 257, 511, 512, 65535, 65536, 65537]      # around the byte boundaries of the 24-bit chunk count
+
+
 def mc_consts(family, depth, kd):
-    return {"D": depth, "Family": f'"{family}"', "CSmall": CSMALL, "KnownDeviations": lib.tla_set(kd)}
+    return {"D": depth, "Family": f'"{family}"', "CSmall": CSMALL, "KnownDeviations": lib.tla_set(kd),
+            "Counts": "{" + ", ".join(str(c) for c in COUNTS) + "}" if family == "cnt" else "{}"}
 
 
 def mc_ideal(ctx, family, depth):
